@@ -410,7 +410,7 @@ fn c19_fleet_retry_loop_message_a4() {
 //@ clause: for every per-attempt outcome sequence of one node (connect refused; accepted then closed, reset or silent until timeout, with any transport kind of contract D; undecodable reply; application error; success): at most max_attempts attempts, a further attempt only after a transport failure, the reported result is the last attempt's reply or error, a connection that failed is never used again, and after a transport failure no client stays cached (a later call reconnects); JSON call (the second copy of the loop) on a node with no cached connection
 //@ funcs: Fleet::call_message_with_retry / call_json_with_retry, fleet::ensure_connected, fleet::invalidate_client, fleet::is_retryable_error, fleet::lock_node_client
 //@ symbolic: max_attempts, the outcome of every attempt (5-letter alphabet x 6 transport kinds), whether a cached connection died while idle
-//@ bounds: max_attempts 1..=2; one node, blocking Fleet; unwind 3
+//@ bounds: max_attempts 1..=2; one node, blocking Fleet; params = Some(_) (the param-less arm, which decodes the reply with serde_json, is outside); unwind 3
 //@ oracle: shadow record of what each attempt saw, written by the environment stubs, checked after the call returns
 //@ stubs: Client::connect, Client::call_message_with_timeout / call_json_with_timeout -> scripted environment with shadow record; thread::sleep -> counter; Instant::now / elapsed -> constants; RandomState::new -> fixed keys; <ClientInner as Drop>::drop -> no-op; Arc::drop_slow -> leak
 //@ assumes: a connection that failed at transport level, or died while idle, fails with BrokenPipe when used; releasing the last reference to shared state (socket shutdown/close, failing pending callers) is outside the model
@@ -435,7 +435,7 @@ fn c19_fleet_retry_loop_json_a2() {
 //@ clause: for every per-attempt outcome sequence of one node (connect refused; accepted then closed, reset or silent until timeout, with any transport kind of contract D; undecodable reply; application error; success): at most max_attempts attempts, a further attempt only after a transport failure, the reported result is the last attempt's reply or error, a connection that failed is never used again, and after a transport failure no client stays cached (a later call reconnects); JSON call (the second copy of the loop) on a node with no cached connection
 //@ funcs: Fleet::call_message_with_retry / call_json_with_retry, fleet::ensure_connected, fleet::invalidate_client, fleet::is_retryable_error, fleet::lock_node_client
 //@ symbolic: max_attempts, the outcome of every attempt (5-letter alphabet x 6 transport kinds), whether a cached connection died while idle
-//@ bounds: max_attempts 1..=3; one node, blocking Fleet; unwind 4
+//@ bounds: max_attempts 1..=3; one node, blocking Fleet; params = Some(_) (the param-less arm is outside); unwind 4
 //@ oracle: shadow record of what each attempt saw, written by the environment stubs, checked after the call returns
 //@ stubs: Client::connect, Client::call_message_with_timeout / call_json_with_timeout -> scripted environment with shadow record; thread::sleep -> counter; Instant::now / elapsed -> constants; RandomState::new -> fixed keys; <ClientInner as Drop>::drop -> no-op; Arc::drop_slow -> leak
 //@ assumes: a connection that failed at transport level, or died while idle, fails with BrokenPipe when used; releasing the last reference to shared state (socket shutdown/close, failing pending callers) is outside the model
